@@ -17,7 +17,7 @@ from lib.probe import shard_map, worker_probe, nproc, TARGET, HARNESS, cargo_env
 BOUNDARY_INTS = ["0", "1", "2", "31", "32", "63", "64", "255", "256", "999", "1000", "65535", "65536", "2147483647",
                  "2147483648", "4294967295", "4294967296", "9223372036854775807", "9223372036854775808",
                  "18446744073709551616", "100000000000000000000", "-1", "-2147483648", "-2147483649", "0.5", "1e3"]
-UNITS = ["m", "s", "kg", "ft", "inch", "mile", "hour", "day", "year", "K", "A", "mol", "cd", "bit", "byte", "radian", "degree",
+UNITS = ["nitrogen", "oxygen", "2 kg water", "3 m oxygen", "1 mol gold", "m", "s", "kg", "ft", "inch", "mile", "hour", "day", "year", "K", "A", "mol", "cd", "bit", "byte", "radian", "degree",
          "N", "J", "W", "Pa", "Hz", "V", "ohm", "liter", "gallon", "acre", "lightyear", "c", "G", "pi", "percent", "USD",
          "kilometer", "millisecond", "cups", "furlongs", "fortnight", "'foo'", "'bar baz'", "ans", "_", "water", "gold",
          "H2O", "C2H6", "NaCl", "kWh", "mph", "dozen", "googol", "ly", "au", "eV", "btu", "hp", "psi", "mmHg", "rpm"]
@@ -32,7 +32,7 @@ TOKENS = (["(", ")", "+", "-", "*", "/", "|", "^", "**", "=", "<<", ">>", "->", 
           + UNITS + FUNCS + DEG + BOUNDARY_INTS)
 DATE_BITS = ["2020", "01", "1", "31", "32", "00", "12", "13", "24", "59", "60", "61", "99", "0000", "9999", "10000", "-", ":", " ",
              "T", "W", "+", ".", ",", "jan", "January", "feb", "mon", "Monday", "am", "PM", "ad", "BC", "bce", "US/Pacific",
-             "Europe/London", "Foo/Bar", "+05:00", "+0500", "-2359", "+24:00", "+9999", "12.5", "12.123456789", "12.1234567890",
+             "Europe/London", "Foo/Bar", "+05:00", "+0500", "-2359", "+24:00", "+9999", "+999999:00", "-99999999999:00", "+2147483648:00", "+00:99", "+0099", "+9999999999", "12.5", "12.123456789", "12.1234567890",
              "12.00000000000000000001", "999999999999", "٣", "x"]
 DATE_VALID = ["2020-01-01", "2020-01-01 12:00", "2020-01-01T12:00:00 +05:00", "jan 1, 1970", "January 1 1970 12:00 pm",
               "1970 January 1", "12:34:56", "12:34 pm", "2020-366", "--02-29", "Sun Jan 5 13:04:05 2020", "2020-W05",
@@ -88,8 +88,12 @@ def g_expr(rng, depth):
             if rng.random() < 0.1:
                 u += "s"
             return u
-        if r < 0.93:
+        if r < 0.91:
             return "#%s#" % g_date(rng)
+        if r < 0.96:
+            # values that are NaN / infinite / zero machine floats, flowing into whatever comes next
+            return rng.choice(["ln(-1)", "log2(0)", "exp(1000)", "-exp(1000)", "sin(0)", "sqrt(0)", "0.0", "(0-1)", "(0+1)", "(1-1)",
+                               "asin(2)", "1e308 exp(700)", "ln(0)", "tan(pi/2)", "(exp(1000) - exp(1000))"])
         return rng.choice(["now", "ans", "'x'", "\"in\""])
     r = rng.random()
     a, b = g_expr(rng, depth - 1), g_expr(rng, depth - 1)
@@ -129,8 +133,14 @@ def g_date(rng):
 
 def g_target(rng):
     r = rng.random()
+    if r < 0.12:
+        return g_expr(rng, rng.choice([1, 2, 2, 3]))
     if r < 0.25:
-        return g_expr(rng, 1)
+        # constants with sums/differences/powers inside a target (the unit-name evaluator treats them separately)
+        u = rng.choice(UNITS)
+        inner = rng.choice(["(0-1)", "(0+1)", "(1-1)", "(2-2)", "(3-1)", "(0-1)^-1", "(0+1)^-1", "(1+1)^2", "(1-2)", "0", "-0", "(0 %s)" % u])
+        return rng.choice(["%s/%s", "%s %s", "%s/(%s %s)" % ("%s", "%s", u), "1/%s %s", "%s^%s", "(%s)^(%s)", "%s mod %s", "%s - %s"]) % (
+            rng.choice([u, "1", "2", inner]), inner)
     if r < 0.4:
         return rng.choice(["digits", "digits %s" % rng.choice(BOUNDARY_INTS), "frac", "fraction", "ratio", "sci", "scientific",
                            "eng", "engineering"]) + rng.choice(["", " base %s" % rng.choice(BOUNDARY_INTS + ["2", "10", "16", "36", "37", "1"]),
@@ -142,7 +152,16 @@ def g_target(rng):
     if r < 0.72:
         return rng.choice(["+", "-"]) + rng.choice(["05:00", "23:59", "24:00", "99:99", "00:00", "5:00", "0500", "05:0", "100:00", "٠٥:٠٠"])
     if r < 0.8:
-        return rng.choice(['"US/Pacific"', "UTC", "\"Europe/London\"", "GB", "\"Foo/Bar\"", "US/Pacific", "EST", "Japan"])
+        z = rng.choice(['"US/Pacific"', "UTC", "\"Europe/London\"", "GB", "\"Foo/Bar\"", "US/Pacific", "EST", "Japan", "GMT", "CET",
+                        "NZ", "UCT", "Zulu", "Iran", "Cuba", "Egypt", "\"Etc/GMT+5\"", "\"America/New_York\""])
+        c = rng.random()
+        if c < 0.25:
+            z = z.lower()
+        elif c < 0.35:
+            z = z.upper()
+        elif c < 0.45:
+            z = z.title()
+        return z
     if r < 0.9:
         return rng.choice(DEG) + rng.choice(["", "", " m", "^2", " " + rng.choice(DEG)])
     return "%s = %s" % (rng.choice(["potato", "x", "m", "1", "'q'"]), g_expr(rng, 1))
@@ -159,6 +178,40 @@ def g_grammar(rng):
     if r < 0.93:
         return "search %s" % rng.choice(["foo", "met", "", "1", "'x'", "kilogram", "\\u", "ππππ"])
     return "#%s#%s" % (g_date(rng), rng.choice(["", " + 1 day", " - #2020-01-01#", " -> +05:00", " -> \"US/Pacific\"", " * 2", " -> s"]))
+
+
+SPECIAL_VALUES = ["ln(-1)", "log2(0)", "-log2(0)", "exp(1000)", "-exp(1000)", "sin(0)", "0", "-0", "0.0", "(1-1)", "(0-1)", "1e-400", "1e400",
+                  "asin(2)", "(exp(1000)-exp(1000))", "2^0.5", "sqrt(2)", "1|3", "-1|3", "2147483647", "2147483648", "-2147483649",
+                  "9223372036854775807", "9223372036854775808", "1e19", "1e-19", "4294967296", "0.1", "1.0000000000000001", "pi",
+                  "ans", "now", "#2020-01-01#", "water", "(2 kg water)", "(3 m oxygen)", "(1 mol gold)", "'q'", "m", "m^-1", "s", "1 year",
+                  "1e18 s", "-1e18 s", "9.3e15 s", "1e-10 s", "K", "degree", "byte", "USD"]
+CONTEXTS = ["now + {} s", "now - {} s", "#2020-01-01# + {}", "#2020-01-01# - {}", "#2020-01-01 12:00 +05:00# + {} year", "now - {}",
+            "2^{}", "{}^{}", "{}^-1", "{}^0.5", "{}^(1|3)", "1 << {}", "1 >> {}", "{} << 2", "{} mod 1", "1 mod {}", "{} mod {}", "{} and 1",
+            "{} xor {}", "1 / {}", "{} / {}", "{} | {}", "{} {}", "{} + {}", "{} - {}", "-{}", "1 -> {}", "1 m -> {} m", "{} -> m", "{} -> {}",
+            "{} -> digits 5", "{} -> digits", "{} -> frac", "{} -> sci", "{} -> eng base 7", "{} -> base 2", "{} -> hex", "{} hours",
+            "{} degC", "{} -> degF", "{} K -> degC", "sqrt({})", "ln({})", "atan2({}, {})", "hypot({}, {})", "log({}, {})", "{} m -> ft;in",
+            "{} -> hour;min;sec", "units for {}", "factorize {}", "{} water", "density of ({} water)", "mass of ({} m^3 water)",
+            "{} -> UTC", "{} -> +05:00", "{} -> \"US/Pacific\"", "{} -> potato = {}", "{} of {}", "volume of {}", "{}%", "{} percent",
+            "{} -> 1/{}", "{} -> ({})^-1", "{} -> {}/({})", "({}) ({})^2 -> {}", "{} + {} + {}", "{} -> {} + {}"]
+SUBSTANCES = ["water", "gold", "oxygen", "nitrogen", "H2O", "C2H6", "NaCl", "air", "2 kg water", "3 m oxygen", "1 mol gold", "5 liter water",
+              "2 oxygen", "(1|0) water", "ln(-1) gold", "0 water", "1 kg nitrogen", "1 m oxygen", "iron / 2", "water * 3 s"]
+OFFSETS = ["+00:00", "+23:59", "-23:59", "+24:00", "+99:99", "+999999:00", "-999999:00", "+2147483647:00", "+596523:00", "+596524:00",
+           "+9999", "-9999", "+99999", "+0000", "US/Pacific", "Europe/London", "Foo/Bar", "utc", "UTC", "+1:00", "+001:00", "+00:60", "+12:5"]
+
+
+def g_special(rng):
+    """special values (NaN, infinities, zeros, boundary integers, dates, substances) in every operator/command context"""
+    r = rng.random()
+    if r < 0.7:
+        ctx = rng.choice(CONTEXTS)
+        n = ctx.count("{}")
+        return ctx.format(*[rng.choice(SPECIAL_VALUES) for _ in range(n)])
+    if r < 0.85:
+        a, b = rng.choice(SUBSTANCES), rng.choice(SUBSTANCES)
+        return rng.choice(["{} + {}", "{} - {}", "{} {}", "{} / {}", "{} -> {}", "molar_mass of ({} + {})", "({} + {}) -> g", "{} + {} + {}".replace("{} + {} + {}", "{} + {}")]).format(a, b)
+    base = rng.choice(["2020-01-01 00:00:00", "2020-01-01 12:00", "2020-01-01T00:00", "jan 1, 1970 03:00 pm", "12:34:56", "1970 January 1 12:00", "2020-366 00:00"])
+    lit = "#%s %s#" % (base, rng.choice(OFFSETS))
+    return rng.choice(["{}", "{} + 1 day", "{} - #2020-01-01#", "{} -> +05:00", "now - {}", "{} -> UTC"]).format(lit)
 
 
 def g_soup(rng):
@@ -251,6 +304,15 @@ def is_expensive(text):
     for m in re.finditer(r"(\^|\*\*|<<|>>|digits)\s*", text):
         rest = text[m.end():]
         rest = rest.lstrip(" (+-\u2212")
+        rm = re.match(r"0([xob])([0-9a-fA-F_\u2009]*)", rest)
+        if rm:
+            ds = "".join(c for c in rm.group(2) if c not in _SEP)
+            try:
+                if ds and int(ds, {"x": 16, "o": 8, "b": 2}[rm.group(1)]) >= 1000:
+                    return True
+            except ValueError:
+                return True
+            continue
         lm = re.match(_NUM, rest)
         tok = lm.group(0) if lm else ""
         if not tok:
@@ -269,8 +331,8 @@ def run_history(part, probe, rng, corpus, length, budget):
     kind = "currency" if rng.random() < 0.2 else "bundled"
     cid = probe.ctx(kind, save_prev=True)
     for step in range(length):
-        gen = rng.choice(["grammar", "grammar", "soup", "mutation", "mutation", "raw"])
-        text = {"grammar": g_grammar, "soup": g_soup, "raw": g_raw}.get(gen, lambda r: g_mutation(r, corpus))(rng)
+        gen = rng.choice(["grammar", "grammar", "soup", "mutation", "mutation", "raw", "special", "special"])
+        text = {"grammar": g_grammar, "soup": g_soup, "raw": g_raw, "special": g_special}.get(gen, lambda r: g_mutation(r, corpus))(rng)
         text = text.replace("\n", " ")[:500]
         part.evaluations += 1
         cheap = not is_expensive(text)
@@ -287,13 +349,14 @@ def run_history(part, probe, rng, corpus, length, budget):
             r2 = probe.request({"op": "eval", "ctx": cid, "q": text}, timeout=budget * 3)
             if "timeout" in r2 or "died" in r2:
                 how2 = "timeout" if "timeout" in r2 else "died:%s" % r2.get("died")
-                if "died" in r2 or cheap:
+                if cheap:
                     part.violation({"kind": "no_reply", "how": how2, "generator_class": _shape(text)},
                                    {"input": text, "first": how, "isolated": how2, "cheap": cheap},
                                    "input crashes the process or hangs (cheap by the static size rule)" if cheap else
                                    "input aborts the process")
                 else:
-                    part.inconclusive_event("expensive input exceeded the watchdog", {"input": text[:200]})
+                    # an astronomically large result may exhaust memory or time: that is what the sandbox is for
+                    part.inconclusive_event("expensive input exceeded the watchdog or the memory limit", {"input": text[:200], "how": how2})
                 cid = probe.ctx(kind, save_prev=True)
                 continue
             r = r2
@@ -368,8 +431,8 @@ def cli_slice(run, seed, n, corpus):
                HOME=home, NO_COLOR="1", RUST_BACKTRACE="0")
     lines = []
     for _ in range(n):
-        gen = rng.choice(["grammar", "soup", "mutation", "raw"])
-        t = {"grammar": g_grammar, "soup": g_soup, "raw": g_raw}.get(gen, lambda r: g_mutation(r, corpus))(rng)
+        gen = rng.choice(["grammar", "soup", "mutation", "raw", "special"])
+        t = {"grammar": g_grammar, "soup": g_soup, "raw": g_raw, "special": g_special}.get(gen, lambda r: g_mutation(r, corpus))(rng)
         t = t.replace("\n", " ").replace("\r", " ")[:500]
         if is_expensive(t) or not t.strip():
             continue
@@ -414,7 +477,7 @@ def cli_slice(run, seed, n, corpus):
 
 def run(tier, seed):
     run = Run("C04", tier, seed, "exploration", floor=1000)
-    run.rule = ("inputs <= 500 characters from four interleaved generators (grammar-directed over the whole query language with "
+    run.rule = ("inputs <= 500 characters from five interleaved generators (a grid of special values - NaN, infinities, zeros, boundary integers, dates, substances - in every operator/command context; grammar-directed over the whole query language with "
                 "boundary integers planted in every numeric position; token soup over every token spelling; mutations of a corpus "
                 "extracted from the manual and the test suite; raw Unicode incl. nesting stress), evaluated in histories on "
                 "long-lived contexts with text, span-tree and JSON rendering, health query after every history, plus a slice "
